@@ -10,7 +10,7 @@ use spl_frontend::{
         Expression, GlobalDeclaration, Identifier, ParameterDeclaration, Program, Reference,
         Statement, TypeExpression, Variable, VariableDeclaration,
     },
-    table::{Entry, GlobalEntry, GlobalTable},
+    table::{Entry, GlobalEntry, GlobalTable, SymbolTable},
     Shiftable, ToRange, ToTextRange,
 };
 use std::collections::HashMap;
@@ -28,8 +28,7 @@ pub async fn rename(
             let scope = cursor.scope(ident);
             let DocumentCursor { doc, context, .. } = cursor;
             if let Some(entry) = context {
-                // Early return for int
-                if &ident.value == "int" {
+                if is_predefined(ident, scope, &entry, &doc.table) {
                     return Ok(None);
                 }
                 let idents = find_referenced_identifiers(ident, scope, &entry, &doc.ast, &doc.table);
@@ -55,22 +54,40 @@ pub async fn rename(
     Ok(None)
 }
 
-/// Just checks whether the current cursor position is on an identifier
+/// Checks whether the current cursor position is on an identifier, that can be renamed
 pub async fn prepare_rename(
     doctx: Sender<DocumentRequest>,
     params: TextDocumentPositionParams,
 ) -> Result<Option<PosRange>> {
     if let Some(cursor) = super::doc_cursor(params, doctx).await? {
         if let Some(ident) = &cursor.ident() {
-            // Early return for int
-            if &ident.value == "int" {
-                return Ok(None);
+            let scope = cursor.scope(ident);
+            let DocumentCursor { doc, context, .. } = cursor;
+            if let Some(entry) = &context {
+                if is_predefined(ident, scope, entry, &doc.table) {
+                    return Ok(None);
+                }
             }
-            let text = cursor.doc.text;
-            return Ok(Some(as_pos_range(&ident.to_range(), &text)));
+            return Ok(Some(as_pos_range(&ident.to_range(), &doc.text)));
         }
     }
     Ok(None)
+}
+
+/// The predefined type and the predefined procedures have no declaration,
+/// so renaming them would leave a program with undefined names behind.
+/// (A parameter or variable may be named like them and can be renamed.)
+fn is_predefined(
+    ident: &Ident,
+    scope: Scope,
+    context: &GlobalEntry,
+    global_table: &GlobalTable,
+) -> bool {
+    let entry = match context {
+        GlobalEntry::Procedure(p) => scope.lookup(&ident.value, p, global_table),
+        GlobalEntry::Type(_) => global_table.lookup(&ident.value).map(Entry::from),
+    };
+    entry.map_or(false, |entry| entry.is_default())
 }
 
 pub async fn find(
